@@ -68,6 +68,10 @@ func c14Cases(tier string, seed int64) []core.Case {
 		}})
 	}
 	cases = append(cases, core.Case{ID: "manyfiles", Run: c14Many})
+	for _, dotu := range []bool{true, false} {
+		dotu := dotu
+		cases = append(cases, core.Case{ID: fmt.Sprintf("renegotiated/dotu=%v", dotu), Run: func(ctx *core.Ctx) core.Result { return c14Renegotiated(ctx, dotu) }})
+	}
 	for _, msize := range []uint32{1024, 8192} {
 		msize := msize
 		cases = append(cases, core.Case{ID: fmt.Sprintf("concurrent-readers/msize=%d", msize), Run: func(ctx *core.Ctx) core.Result { return c14Concurrent(ctx, msize) }})
@@ -1242,5 +1246,110 @@ func c15Concurrent(ctx *core.Ctx, dotu bool, G int) core.Result {
 	res.Sig(fmt.Sprintf("concurrent-listings|%v|%d", dotu, G))
 	res.Count("concurrent_listers", int64(G))
 	res.Sample(map[string]interface{}{"scenario": "connections listing their own directories at the same time", "connections": G, "entries_each": nent, "rounds": 25})
+	return res
+}
+
+// c14Renegotiated: a connection that negotiates more than once (a client probing with a small msize and settling on a
+// larger one, or the reverse). After every Rversion the announced msize is what the session uses: reads of every count
+// up to msize-24 return exactly the bytes of the file, writes of that size arrive whole.
+func c14Renegotiated(ctx *core.Ctx, dotu bool) core.Result {
+	var res core.Result
+	e, err := newEnv(ctx, "c14r", dotu, 8192)
+	if err != nil {
+		res.Inconclusive = err.Error()
+		return res
+	}
+	defer e.cleanup()
+	r := core.NewRand(ctx.Seed, fmt.Sprintf("c14reneg/%v", dotu))
+	content := r.Bytes(20000)
+	_ = os.WriteFile(filepath.Join(e.root, "data"), content, 0o644)
+	_ = os.WriteFile(filepath.Join(e.root, "other"), nil, 0o644)
+	ver := "9P2000"
+	if dotu {
+		ver = "9P2000.u"
+	}
+	for si, seq := range [][]uint32{{512, 8192}, {256, 4096, 8192}, {8192, 300, 8192}, {1024, 1024}, {64, 8192}, {8192, 8192}, {700, 600, 5000}} {
+		c := e.s.Dial()
+		rr := &rawc{c: c}
+		fidn := uint32(0)
+		for step, ask := range seq {
+			ctx.Beat()
+			rv, err := c.Version(ask, ver, W)
+			if err != nil || rv.Msg == nil || rv.Msg.Type != wire.Rversion {
+				res.Violate("C14;renegotiated;no-rversion", fmt.Sprintf("Tversion msize=%d (step %d of %v) was not answered by Rversion", ask, step, seq), nil)
+				break
+			}
+			msize := rv.Msg.Msize
+			if msize > ask || msize < 24 {
+				res.Violate("C14;renegotiated;msize", fmt.Sprintf("Tversion msize=%d answered msize=%d", ask, msize), nil)
+				break
+			}
+			L := int(msize) - wire.IOHDRSZ
+			root, f, o := fidn+1, fidn+2, fidn+3
+			fidn += 3
+			what := fmt.Sprintf("msizes asked in turn %v, now at step %d with msize %d", seq, step, msize)
+			if a := rr.rpc(&wire.Msg{Type: wire.Tattach, Fid: root, Afid: wire.NOFID, Uname: "root", Nuname: 0}); a == nil || a.Type != wire.Rattach {
+				res.Violate("C14;renegotiated;attach", "attach after a Tversion failed: "+what, nil)
+				break
+			}
+			okw := rr.rpc(&wire.Msg{Type: wire.Twalk, Fid: root, Newfid: f, Wname: []string{"data"}})
+			oko := rr.rpc(&wire.Msg{Type: wire.Topen, Fid: f, Mode: 2})
+			rr.rpc(&wire.Msg{Type: wire.Twalk, Fid: root, Newfid: o, Wname: []string{"other"}})
+			rr.rpc(&wire.Msg{Type: wire.Topen, Fid: o, Mode: 0})
+			if okw == nil || okw.Type != wire.Rwalk || oko == nil || oko.Type != wire.Ropen {
+				res.Violate("C14;renegotiated;open", "walk/open after a Tversion failed: "+what, nil)
+				break
+			}
+			if L < 1 {
+				continue
+			}
+			bad := false
+			for i, cnt := range []int{1, L / 2, L - 1, L, L, 1 + r.Intn(L), L} {
+				if cnt < 1 {
+					continue
+				}
+				off := []int{0, 1000, len(content) - cnt/2, 7, len(content) - cnt, 333, len(content)}[i]
+				if off < 0 {
+					off = 0
+				}
+				// (a read of the empty file in between: its reply buffer holds an Rread of no bytes)
+				if i%2 == 1 {
+					rr.rpc(&wire.Msg{Type: wire.Tread, Fid: o, Offset: 0, Count: uint32(L)})
+				}
+				rp := rr.rpc(&wire.Msg{Type: wire.Tread, Fid: f, Offset: uint64(off), Count: uint32(cnt)})
+				res.Evals++
+				want := content[off:]
+				if len(want) > cnt {
+					want = want[:cnt]
+				}
+				if rp == nil || rp.Type != wire.Rread || !bytes.Equal(rp.Data, want) {
+					got := -1
+					if rp != nil && rp.Type == wire.Rread {
+						got = len(rp.Data)
+					}
+					res.Violate(fmt.Sprintf("C14;renegotiated;read-differs;%s", cntClass(cnt, L)), fmt.Sprintf("read(offset %d, count %d) of a %d-byte file returned %d bytes (reply %v), want %d: %s", off, cnt, len(content), got, rp != nil && rp.Type == wire.Rread, len(want), what), map[string]interface{}{"msizes": seq, "step": step})
+					bad = true
+					break
+				}
+			}
+			if bad {
+				break
+			}
+			patch := r.Bytes(L)
+			wp := rr.rpc(&wire.Msg{Type: wire.Twrite, Fid: f, Offset: 100, Count: uint32(L), Data: patch})
+			copy(content[100:], patch)
+			host, _ := os.ReadFile(filepath.Join(e.root, "data"))
+			if wp == nil || wp.Type != wire.Rwrite || int(wp.Count) != L || !bytes.Equal(host, content) {
+				res.Violate("C14;renegotiated;write-differs", fmt.Sprintf("write of %d bytes at 100: reply %v, host file equal to the model: %v: %s", L, wp, bytes.Equal(host, content), what), nil)
+				break
+			}
+			res.Sig(fmt.Sprintf("renegotiated|%v|%d|%d|%d", dotu, si, step, msize))
+		}
+		c.Hangup()
+		if len(res.Violations) > 0 {
+			break
+		}
+	}
+	res.Sample(map[string]interface{}{"scenario": "reads and writes after every Tversion of a connection that negotiates several times", "dotu": dotu})
 	return res
 }
